@@ -667,10 +667,10 @@ def shard_main(ck, shard, nshards):
     gate(ck, lib)
   total = ck.budget(18, 400)
   nmodels = max(1, -(-total // nshards))
-  nstates = 6 if ck.quick else 12
+  nstates = 5 if ck.quick else 12
   import time as _t
   t_start = _t.time()
-  t_budget = float(os.environ.get('C43_TIME', 80 if ck.quick else 1200))
+  t_budget = float(os.environ.get('C43_TIME', 45 if ck.quick else 1200))
 
   def test(case):
     gm, seeds = case
